@@ -240,7 +240,7 @@ namespace pure {
         r.prefixes( a.n( 1 << 16, 1 << 20 ));
         r.exhaustive_words( a.thorough ? 26 : 20 );
         Rng g( mix64( a.seed ) ^ sizeof( C ));
-        r.random_walk( a.n( 1000000, 10000000 ), g, uint64_t( 1 ) << 21 );
+        r.random_walk( budget( 1000000, 10000000 ), g, uint64_t( 1 ) << 21 );
         PropStats& ps = prop( "C26" );
         ps.evaluations.fetch_add( r.evals );
         ps.operations.fetch_add( r.ops );
